@@ -8,7 +8,10 @@ HRES_POOL = ["ms(4f4b)", "mi(31)", "mb(76616c)", "mn", "ma[b(61),b(62)]", "ma[]"
              "ms(" + L.hx(b"x\r\n:1\r\n") + ")", "me(" + L.hx(b"ERR y\r\n$-1\r\n") + ")", "mi(" + L.hx(b"12\r\n+OK") + ")",
              "bs(4f4b)|" + L.hx(b"both"), "ma[a[b(61)],n,i(37)]", "mb(" + L.hx(b"\r\n\x00$") + ")", "mb(-)", "ma[b(6b31),b(7631),b(6b32),b(7632)]",
              "ma[b(61),b(312e35),b(62),b(32)]", "mb(3432)", "mb(2d37)", "mb(" + L.hx(b"9223372036854775807") + ")", "mi(3432)", "ms(3432)",
-             "mN", "ma[N,b(61),a[N]]", "q"]
+             "mN", "ma[N,b(61),a[N]]",
+             # line-type payloads that are not valid UTF-8 (Latin-1 text, binary keys echoed in an error): bytes are bytes on the reply side too
+             "ms(" + L.hx(b"caf\xe9 \xff\xfe") + ")", "me(" + L.hx(b"ERR no such key caf\xe9") + ")", "e" + L.hx(b"bad key \xc3\x28 \x80"),
+             "q"]
 
 def prep(chk, pid):
     broken = vlib.standard_proof_stage(chk, pid)
@@ -418,6 +421,12 @@ def run_c04(tier, seed):
             for req in (("GET", [b"k"]), ("HKEYS", [b"k"])):
                 cases.append(dict(vals=[G.request_bytes(*req), G.request_bytes("PING", []), G.request_bytes("ECHO", [b"after"])], default=h,
                                   desc="%s with a handler result of %d elements (%s...), then PING and ECHO" % (req_desc(*req), ar, h[:24])))
+    # handler results the serializer cannot encode (a message of none of the five types - MessageType is a public integer type -,
+    # alone or inside an array): the client receives ONE well-formed error frame, and the replies behind it are frames of their own
+    for tb in (0x63, 0x0a, 0x0d, 0x2b, 0x24, 0x2a, 0x20, 0x05, 0x7f):     # (0..4 are the five types)
+        for h, nocorr in (("mu(%02x)" % tb, False), ("ma[b(61),u(%02x),b(62)]" % tb, True), ("ma[a[u(%02x)]]" % tb, True)):
+            cases.append(dict(vals=[G.request_bytes("GET", [b"k"]), G.request_bytes("PING", []), G.request_bytes("ECHO", [b"after"])], default=h, nocorr=nocorr,
+                              desc="GET with a handler result of unknown type %d (%s), then PING and ECHO" % (tb, h)))
     for inj in INJ:
         for req in [(b"NOSUCH" + inj, []), (b"GET", [b"k" + inj]), (b"SET", [b"k", b"v", b"EX" + inj]), (b"ECHO", [inj]), (b"PING", [inj]), (b"CONFIG", [b"GET", inj]),
                     (b"CONFIG", [b"BAD" + inj]), (b"SELECT", [b"1" + inj]), (b"AUTH", [inj, inj]), (b"ZADD", [b"k", b"1" + inj, b"m"])]:
@@ -478,7 +487,7 @@ def run_c04(tier, seed):
         for w in ws:
             if w[1]:
                 kinds[chr(w[1][0])] = kinds.get(chr(w[1][0]), 0) + 1
-        if not corr(chk, c):
+        if not c.get("nocorr") and not corr(chk, c):
             continue
         validated += 1
         distinct.add(c["desc"])
